@@ -793,8 +793,64 @@ def inline_fresh_temps(rel, module, refnames):
                         if not (isinstance(st, ast.Assign) and len(st.targets) == 1 and isinstance(st.targets[0], ast.Name)):
                             continue
                         t = st.targets[0].id
-                        if t in want or t in params or len(stores.get(t, [])) != 1 or not loads.get(t):
+                        if t in want or t in params or not loads.get(t):
                             continue
+                        if len(stores.get(t, [])) != 1:
+                            # bound several times (the same temporary in two loops): this definition owns the reads that follow it in
+                            # its block up to the next statement that binds the name again
+                            if any(x is None for x in stores[t]):
+                                continue
+                            region_end = len(blk)
+                            for j in range(i + 1, len(blk)):
+                                if any(isinstance(x, ast.Name) and x.id == t and isinstance(x.ctx, (ast.Store, ast.Del)) for x in ast.walk(blk[j])):
+                                    region_end = j
+                                    break
+                            mine = [x for j in range(i + 1, region_end) for x in ast.walk(blk[j])
+                                    if isinstance(x, ast.Name) and x.id == t and isinstance(x.ctx, ast.Load)]
+                            if not mine or not _pure(st.value) or _builds_container(st.value):
+                                continue
+                            deps_ = {x.id for x in ast.walk(st.value) if isinstance(x, ast.Name)}
+                            if any(isinstance(x, ast.Name) and x.id in deps_ and isinstance(x.ctx, (ast.Store, ast.Del))
+                                   for j in range(i + 1, region_end) for x in ast.walk(blk[j])):
+                                continue
+                            if any(isinstance(x, ast.Attribute) for x in ast.walk(st.value)):
+                                continue
+                            # every read of the name must be owned by exactly one binding in this sense (otherwise a read could see
+                            # this value along another path, e.g. on the first iteration of a later loop)
+                            owned = set()
+                            all_simple = True
+                            for own2 in ast.walk(fn):
+                                for f2 in ('body', 'orelse', 'finalbody'):
+                                    b2 = getattr(own2, f2, None)
+                                    if not (isinstance(b2, list) and b2 and isinstance(b2[0], ast.stmt)):
+                                        continue
+                                    for i2, s2 in enumerate(b2):
+                                        if isinstance(s2, ast.Assign) and len(s2.targets) == 1 and isinstance(s2.targets[0], ast.Name) and s2.targets[0].id == t:
+                                            e2 = len(b2)
+                                            for j2 in range(i2 + 1, len(b2)):
+                                                if any(isinstance(x, ast.Name) and x.id == t and isinstance(x.ctx, (ast.Store, ast.Del)) for x in ast.walk(b2[j2])):
+                                                    e2 = j2
+                                                    break
+                                            for j2 in range(i2 + 1, e2):
+                                                owned |= {id(x) for x in ast.walk(b2[j2]) if isinstance(x, ast.Name) and x.id == t and isinstance(x.ctx, ast.Load)}
+                            n_assign_defs = sum(1 for x in ast.walk(fn) if isinstance(x, ast.Assign) and len(x.targets) == 1
+                                                and isinstance(x.targets[0], ast.Name) and x.targets[0].id == t)
+                            if n_assign_defs != len(stores[t]) or owned != {id(x) for x in loads[t]}:
+                                continue
+                            import copy as _cc3
+                            mine_ids = {id(x) for x in mine}
+
+                            class RR(ast.NodeTransformer):
+                                def visit_Name(self, node):
+                                    if id(node) in mine_ids:
+                                        return _relocate(_cc3.deepcopy(st.value), node)
+                                    return node
+                            for j in range(i + 1, region_end):
+                                blk[j] = RR().visit(blk[j])
+                            del blk[i]
+                            names.append(t)
+                            changed = True
+                            break
                         if _builds_container(st.value):
                             continue        # a value that IS a new container keeps its name (S15 / S24 work on the assignment)
                         single_ok = False
